@@ -98,8 +98,10 @@ pub fn gen_expr(rng: &mut Rng, flavor: Flavor) -> String {
     let mut f: [String; 5] = Default::default();
     match flavor {
         Flavor::Grammar => {
+            // one expression in twenty has long lists (5-24 items per field)
+            let max_items = if rng.chance(1, 20) { 24 } else { 4 };
             for (i, slot) in f.iter_mut().enumerate() {
-                *slot = gen_list(rng, i, 4);
+                *slot = gen_list(rng, i, max_items);
             }
         }
         Flavor::Dense => {
